@@ -12,18 +12,25 @@
 (***************************************************************************)
 EXTENDS Workspace
 
+\* deviations that were genuine defects and have been repaired in /repo by a "fix:" commit;
+\* their branches stay in the model (a change that re-introduces one is then recognised), but
+\* they are no longer part of "the code as it is"
+FixedDevs == {
+    "conftest_first_def",       \* resolver.rs:218  conftest defining n twice: first, not last      (fixed 79c0252)
+    "avail_samefile_first",     \* resolver.rs:500  completion view: first same-file def, not last  (fixed fe369e3)
+    "avail_conftest_first",     \* resolver.rs:516  completion view: first conftest def, not last   (fixed fe369e3)
+    "rff_samefile_first",       \* resolver.rs:1702 outgoing-calls resolver: first same-file def    (fixed d5a9bd4)
+    "version_only_on_add"       \* mod.rs:155 / analyzer.rs:273 version bumped only when a def is recorded (fixed e7e7c04)
+}
+
 AllDevs == {
-    "conftest_first_def",       \* resolver.rs:218  conftest defining n twice: first, not last
     "imp_first_registered",     \* resolver.rs:241  imported name -> first registered def anywhere
     "explicit_any_fixture_name",\* imports.rs:522   `from m import n` counts if ANY fixture is called n
-    "avail_samefile_first",     \* resolver.rs:500  completion view: first same-file def, not last
-    "avail_conftest_first",     \* resolver.rs:516  completion view: first conftest def, not last
     "avail_imported_first",     \* resolver.rs:537  completion view: imported name -> defs[n].first()
     "avail_requires_cache",     \* resolver.rs:529  completion view consults imports only if conftest is in file_cache
-    "rff_samefile_first",       \* resolver.rs:1702 outgoing-calls resolver: first same-file def
     "rff_ignores_imports",      \* resolver.rs:1706 outgoing-calls resolver never consults conftest imports
     "rff_fallback_any",         \* resolver.rs:1750 outgoing-calls resolver falls back to any definition
-    "version_only_on_add",      \* mod.rs:155 / analyzer.rs:273 version bumped only when a def is recorded
+    "rff_no_self_exclusion",    \* call_hierarchy.rs:189 `def n(n)`: outgoing call of n resolves to n itself
     "memo_truncated",           \* imports.rs:421-458 visited-truncated import set is memoised
     "reexport_from_current_text"\* imports.rs:429-481 re-exports recomputed from current (maybe invalid) text
 }
@@ -87,7 +94,7 @@ WalkItems(ix, f, its, i) ==
              ix2 == [ix1 EXCEPT !.usages[f] = @ \o us, !.ubf = AppendUsages(@, us)]
          IN  WalkItems(ix2, f, its, i + 1)
 
-AnalyzeFn(ix, f, m, cleanup) ==
+AnalyzeFnD(ix, D, f, m, cleanup) ==
     LET ix0 == [ix EXCEPT !.cached[f] = m]
     IN  IF ~m.valid THEN ix0                                  \* parse failure: keep everything else
         ELSE LET ix1 == [ix0 EXCEPT !.usages[f] = <<>>,
@@ -97,7 +104,10 @@ AnalyzeFn(ix, f, m, cleanup) ==
                                                      IF n \in ix1.fdefs[f] THEN SelectFile(@[n], f) ELSE @[n]],
                                          !.fdefs[f] = {}]
                         ELSE ix1
-             IN  WalkItems(ix2, f, m.items, 1)
+                 \* analyzer.rs: since e7e7c04 the version is bumped on every successful analysis
+                 ix3 == IF "version_only_on_add" \in D THEN ix2 ELSE [ix2 EXCEPT !.version = @ + 1]
+             IN  WalkItems(ix3, f, m.items, 1)
+AnalyzeFn(ix, f, m, cleanup) == AnalyzeFnD(ix, AllDevs, f, m, cleanup)
 
 (* cleanup_file_cache (mod.rs:281) and the per-victim body of evict_cache_if_needed (mod.rs:336) *)
 DropCaches(ix, f) ==
@@ -280,31 +290,35 @@ ImplAvailable(ix, D, f) == ImplAvailableM(ix, D, NoMemo, f).val
 (***************************************************************************)
 (* resolve_fixture_for_file (resolver.rs:1694-1751) -- outgoing calls      *)
 (***************************************************************************)
-ImplResolveForFile(ix, D, f, n) ==
+ImplResolveForFileX(ix, D, f, n, exclIn) ==
+    \* exclIn: the requesting definition when it asks for its own name (NoDef otherwise); the code
+    \* passes no exclusion at all (deviation rff_no_self_exclusion)
     LET defs == ix.defs[n]
+        excl == IF "rff_no_self_exclusion" \in D THEN NoDef ELSE exclIn
         same == IF "rff_samefile_first" \in D
-                THEN FirstWhere(defs, LAMBDA r : r.file = f)
-                ELSE LastByLine(defs, LAMBDA r : r.file = f)
+                THEN FirstWhere(defs, LAMBDA r : r.file = f /\ Pass(r, excl))
+                ELSE LastByLine(defs, LAMBDA r : r.file = f /\ Pass(r, excl))
         chain == Chain(DirOf[f])
-        \* deepest ancestor conftest that defines n itself; the first such def in vector order
+        \* deepest ancestor conftest that defines n itself
         direct(c) == IF "rff_samefile_first" \in D
-                     THEN FirstWhere(defs, LAMBDA r : r.file = c /\ ~r.third)
-                     ELSE LastByLine(defs, LAMBDA r : r.file = c /\ ~r.third)
+                     THEN FirstWhere(defs, LAMBDA r : r.file = c /\ ~r.third /\ Pass(r, excl))
+                     ELSE LastByLine(defs, LAMBDA r : r.file = c /\ ~r.third /\ Pass(r, excl))
         viaImp(c) == IF "rff_ignores_imports" \in D THEN NoRec
-                     ELSE IF Known(ix, c) /\ n \in ImplImportedCold(ix, D, c) THEN ProvidedRec(ix, c, n, NoDef)
+                     ELSE IF Known(ix, c) /\ n \in ImplImportedCold(ix, D, c) THEN ProvidedRec(ix, c, n, excl)
                      ELSE NoRec
         lvl(j) == LET c == ConftestAt(chain[j]) IN
                   IF c = NoFile THEN NoRec
                   ELSE IF direct(c) # NoRec THEN direct(c) ELSE viaImp(c)
         hits == { j \in 1..Len(chain) : lvl(j) # NoRec }
-        plug  == FirstWhere(defs, LAMBDA r : r.plugin /\ ~r.third)
-        third == FirstWhere(defs, LAMBDA r : r.third)
+        plug  == FirstWhere(defs, LAMBDA r : r.plugin /\ ~r.third /\ Pass(r, excl))
+        third == FirstWhere(defs, LAMBDA r : r.third /\ Pass(r, excl))
     IN  IF defs = <<>> THEN NoRec
         ELSE IF same # NoRec THEN same
         ELSE IF hits # {} THEN lvl(Min(hits))
         ELSE IF plug # NoRec THEN plug
         ELSE IF third # NoRec THEN third
         ELSE IF "rff_fallback_any" \in D THEN defs[1] ELSE NoRec
+ImplResolveForFile(ix, D, f, n) == ImplResolveForFileX(ix, D, f, n, NoDef)
 
 (***************************************************************************)
 (* compute_definition_usage_counts (cli.rs:10-81): counts keyed by         *)
